@@ -55,6 +55,9 @@ func runCLIAs(c *fw.Ctx, uid uint32, args ...string) cliResult {
 		}
 	}
 	cmd := exec.CommandContext(ctx, bin, args...)
+	if extra, ok := c.Env.State["cli_env"].([]string); ok && len(extra) > 0 {
+		cmd.Env = append(os.Environ(), extra...) // e.g. TZ=Asia/Tokyo: output must not depend on the local zone
+	}
 	var so, se bytes.Buffer
 	cmd.Stdout, cmd.Stderr = &so, &se
 	if uid != 0 {
